@@ -186,7 +186,9 @@ func (r *Router) match(method, path string) (rt *Route, ps Params) {
 
 // cache dynamic Params route when EnableRouteCache is true
 func (r *Router) cacheDynamicRoute(key string, ps Params, route *Route) {
-	if !r.enableCaching {
+	// Notice: the cache is created when a route is added; it is missing when caching was
+	// switched on after the last route was added
+	if !r.enableCaching || r.cachedRoutes == nil {
 		return
 	}
 
